@@ -322,7 +322,7 @@ vk_h!(c01_maybe_empty_int, 12, {
 });
 
 // ------------------------------------------------------------------------------------------------
-// collections, vectors, maps, tuples, nesting: concrete shapes, symbolic element values.
+// collections, vectors, maps, tuples, nesting: concrete shapes, symbolic element values; the `frozen` marker of every collection type is symbolic.
 // Harnesses marked tier=off did not finish in CBMC within 30 min / 24 GB (kept for reference, not part of any claim).
 // Split form: (a) ser(value) == spec bytes, (b) de(spec bytes) == value, as separate obligations; decoding goes through the
 // lazy iterator carriers (Vec<T>'s `collect` machinery does not get through CBMC's symbolic execution).
@@ -337,13 +337,13 @@ fn t_text() -> ColumnType<'static> {
     ColumnType::Native(NativeType::Text)
 }
 fn t_list(e: ColumnType<'static>) -> ColumnType<'static> {
-    ColumnType::Collection { frozen: false, typ: CollectionType::List(Box::new(e)) }
+    ColumnType::Collection { frozen: kani::any(), typ: CollectionType::List(Box::new(e)) }
 }
 fn t_set(e: ColumnType<'static>) -> ColumnType<'static> {
-    ColumnType::Collection { frozen: false, typ: CollectionType::Set(Box::new(e)) }
+    ColumnType::Collection { frozen: kani::any(), typ: CollectionType::Set(Box::new(e)) }
 }
 fn t_map(k: ColumnType<'static>, v: ColumnType<'static>) -> ColumnType<'static> {
-    ColumnType::Collection { frozen: false, typ: CollectionType::Map(Box::new(k), Box::new(v)) }
+    ColumnType::Collection { frozen: kani::any(), typ: CollectionType::Map(Box::new(k), Box::new(v)) }
 }
 fn t_vector(e: ColumnType<'static>, d: u16) -> ColumnType<'static> {
     ColumnType::Vector { typ: Box::new(e), dimensions: d }
